@@ -94,7 +94,12 @@ RULE = ("E2: breadth-first search over ALL operation histories on a real behave.
         "inner raising cleanup / with a generator fixture / setting+deleting an attribute, sets an attribute} in every "
         "frame of 4 stack shapes, and every sequence of <= 3 of those kinds + execute_steps in the testrun / feature / "
         "rule / scenario scope of a real ModelRunner run (LIFO exactly-once log, error raised iff some cleanup raised, "
-        "first error, stack restored, owner status and verdict). Duplicate layer names: a search over {push ANY layer name, "
+        "first error, stack restored, owner status and verdict). Runner reuse: every sequence of 2 (thorough 3) run() calls "
+        "on ONE ModelRunner over programs {plain, raising test-run cleanup, failing step, context.abort()} that set "
+        "attributes in before_all / before_feature / a step, register test-run cleanups in every form (module-level "
+        "function without args, args, kwargs, generator fixture, layer='testrun' from a step and from before_scenario) "
+        "and probe names and failed/aborted/cleanup_errors at every callback: each run must equal the same program on a "
+        "fresh runner. Duplicate layer names: a search over {push ANY layer name, "
         "also an active one and 'testrun', <= 4 frames; pop; end; add_cleanup(fresh function) to the current frame or "
         "layer=each of the 4 names} to length 6 (thorough 7), cross-checked without deduplication to length 4 (the model "
         "resolves layer= to the innermost LIVE frame of that name); E3 registrations (<= 2) on 5 stack shapes with a "
@@ -124,6 +129,9 @@ ASSUMPTIONS = [
     "cleanup functions raise Exception subclasses only (BaseException/KeyboardInterrupt in cleanups not covered)",
     "E1 owning-element clause demands a failing status (failed/error/hook_error/cleanup_error), not a specific one",
     "the random tail of the quantifier ('randomly beyond the bound') is not claimed",
+    "runner reuse: each run() on one ModelRunner gets freshly parsed features (context reuse is isolated from model "
+    "reuse); histories with an aborted EARLIER run are included - ModelRunner.run() starts a new Context, so the "
+    "abort flag of the previous test-run scope must not leak (unlike C01, which does not state reuse after an abort)",
 ]
 
 NAMES = ("x", "y")
@@ -2452,6 +2460,190 @@ def dup_run_case(case):
 
 
 # =============================================================================
+# runner reuse: ONE ModelRunner object, run() called several times.  The test-run scope of a
+# run ends with that run: every run must behave exactly like the same program on a fresh runner
+# =============================================================================
+REUSE_FEATURE = u'''Feature: U
+  Scenario: S1
+    Given work
+    Then probe
+
+  Scenario: S2
+    Given probe
+'''
+REUSE_PROGRAMS = ("plain", "raising-cleanup", "failing-step", "abort")
+REUSE_NAMES = ("ra", "fa", "sa", "shared")
+
+
+def reuse_plain_cleanup():
+    """a module-level cleanup function, registered without arguments in every run (as user code would)"""
+    _REUSE_LOG[0].append(("cleanup", "plain-module-function"))
+
+
+_REUSE_LOG = [None]
+
+
+class ReuseRec(object):
+    """the callbacks of the runner-reuse programs; .k/.program/.events are switched per run"""
+
+    def __init__(self):
+        self.k, self.program, self.events = 0, "plain", []
+
+    def cleanup(self, tag, k=None):
+        self.events.append(("cleanup", tag, k))
+        if tag == "before_all-args" and self.program == "raising-cleanup":
+            raise Boom(u"test-run cleanup of run %s raises {0} %%s" % k)
+
+    def fixture(self, context, k):
+        self.events.append(("fixture-setup", k))
+        yield k
+        self.events.append(("cleanup", "fixture-teardown", k))
+
+    def probe(self, kind, context):
+        seen = []
+        for n in REUSE_NAMES:
+            seen.append((n, getattr(context, n, "<AE>"), n in context))
+        flags = tuple((n, getattr(context, n, "<AE>")) for n in ("failed", "aborted", "cleanup_errors"))
+        self.events.append(("cb", kind, tuple(seen), flags))
+
+    # ---- hooks
+    def before_all(self, context):
+        from behave.fixture import use_fixture
+        self.probe("before_all", context)
+        k = self.k
+        context.ra = ("ra", k)
+        context.shared = ("shared-testrun", k)
+        context.add_cleanup(reuse_plain_cleanup)
+        context.add_cleanup(self.cleanup, "before_all-args", k)
+        context.add_cleanup(self.cleanup, tag="before_all-kwargs", k=k)
+        use_fixture(self.fixture, context, k)
+
+    def before_feature(self, context, feature):
+        self.probe("before_feature", context)
+        context.fa = ("fa", self.k)
+        context.add_cleanup(self.cleanup, "feature-args", self.k)
+
+    def before_scenario(self, context, scenario):
+        self.probe("before_scenario", context)
+        context.add_cleanup(self.cleanup, "scenario-hook-layer-testrun", self.k, layer="testrun")
+
+    def after_all(self, context):
+        self.probe("after_all", context)
+
+    # ---- steps
+    def work(self, context):
+        self.probe("step work", context)
+        k = self.k
+        context.sa = ("sa", k)
+        context.shared = ("shared-scenario", k)
+        context.add_cleanup(self.cleanup, "step-layer-testrun", k, layer="testrun")
+        context.add_cleanup(self.cleanup, "step-scenario", k)
+        if self.program == "failing-step":
+            assert False, "step of run %d fails" % k
+        if self.program == "abort":
+            context.abort()
+
+    def probe_step(self, context):
+        self.probe("step probe", context)
+
+
+def reuse_histories(length):
+    for n in range(2, length + 1):
+        for hist in itertools.product(REUSE_PROGRAMS, repeat=n):
+            yield hist
+
+
+def _reuse_runs(history, fresh_each_time):
+    """-> per run: (events, statuses, failed).  One registry and one set of callbacks; either ONE
+    runner for all runs or a fresh runner per run (the reference)"""
+    import logging
+    from behave import matchers
+    from behave.configuration import Configuration
+    from behave.step_registry import StepRegistry
+    from behave.parser import parse_feature
+    from behave.runner import ModelRunner
+    from io import StringIO
+    root = logging.getLogger()
+    saved = (root.level, list(root.handlers), sys.stdout, sys.stderr)
+    matchers.use_step_matcher("parse")
+    rec = ReuseRec()
+    out = []
+    try:
+        sys.stdout = StringIO()
+        reg = StepRegistry()
+        reg.add_step_definition("step", u"work", rec.work)
+        reg.add_step_definition("step", u"probe", rec.probe_step)
+        hooks = {"before_all": rec.before_all, "before_feature": rec.before_feature,
+                 "before_scenario": rec.before_scenario, "after_all": rec.after_all}
+        runner = None
+        for k, program in enumerate(history):
+            feature = parse_feature(REUSE_FEATURE, filename="u.feature")
+            if runner is None or fresh_each_time:
+                runner = ModelRunner(Configuration("", load_config=False), [feature], step_registry=reg)
+                runner.hooks = hooks
+                runner.formatters = []
+            else:
+                runner.features = [feature]
+            rec.k, rec.program, rec.events = k, program, []
+            _REUSE_LOG[0] = rec.events
+            failed = runner.run()
+            statuses = (feature.status.name,) + tuple(sc.status.name for sc in feature.run_items) + \
+                tuple(st.status.name for sc in feature.run_items for st in sc.steps)
+            out.append((tuple(rec.events), statuses, bool(failed)))
+    finally:
+        sys.stdout, sys.stderr = saved[2], saved[3]
+        root.setLevel(saved[0])
+        root.handlers[:] = saved[1]
+        _REUSE_LOG[0] = None
+    return out
+
+
+def reuse_case(history):
+    """history = the programs of the consecutive run() calls on ONE ModelRunner"""
+    with warnings.catch_warnings():
+        warnings.simplefilter("ignore")
+        reused = _reuse_runs(history, False)
+        fresh = _reuse_runs(history, True)
+    v = []
+    for k, (got, want) in enumerate(zip(reused, fresh)):
+        if got == want:
+            continue
+        where = "one ModelRunner, run() #%d (programs of the runs: %r)" % (k + 1, history)
+        n0 = len(v)
+        gev, wev = got[0], want[0]
+        gcl, wcl = [e for e in gev if e[0] == "cleanup"], [e for e in wev if e[0] == "cleanup"]
+        gcb, wcb = [e for e in gev if e[0] == "cb"], [e for e in wev if e[0] == "cb"]
+        if [e[:3] for e in gcb] != [e[:3] for e in wcb]:
+            diff = [(a[1], [x for x, y in zip(a[2], b[2]) if x != y]) for a, b in zip(gcb, wcb) if a[:3] != b[:3]]
+            v.append(({"subcheck": "runner-reuse", "clause": "visible"},
+                      "%s: %s sees %r; on a fresh runner %r" % (
+                          where, diff[0][0] if diff else "a callback", diff[0][1] if diff else gcb,
+                          [y for a, b in zip(gcb, wcb) if a[:3] != b[:3] for x, y in zip(a[2], b[2]) if x != y][:4])))
+        if gcl != wcl:
+            kind, _t = log_diff([("cl",) + e[1:] for e in gcl], [("cl",) + e[1:] for e in wcl])
+            extra = [e for e in gcl if e not in wcl]
+            v.append(({"subcheck": "runner-reuse", "clause": "cleanup-log", "kind": kind,
+                       "trigger": "cleanup-of-an-earlier-run" if any(e[2] is not None and e[2] != k for e in extra)
+                       else "other"},
+                      "%s: cleanups %r; on a fresh runner %r" % (where, gcl, wcl)))
+        if [e[3] for e in gcb] != [e[3] for e in wcb] and len(gcb) == len(wcb):
+            diff = [(a[1], a[3], b[3]) for a, b in zip(gcb, wcb) if a[3] != b[3]]
+            v.append(({"subcheck": "runner-reuse", "clause": "root-flags"},
+                      "%s: %s sees (failed, aborted, cleanup_errors) = %r; on a fresh runner %r" % ((where,) + diff[0])))
+        if got[1:] != want[1:]:
+            v.append(({"subcheck": "runner-reuse", "clause": "status-verdict"},
+                      "%s: statuses/failed %r; on a fresh runner %r" % (where, got[1:], want[1:])))
+        if len(v) == n0:
+            v.append(({"subcheck": "runner-reuse", "clause": "events"},
+                      "%s: events %r; on a fresh runner %r" % (where, gev, wev)))
+        break
+    return {"v": v, "dg": tuple(reused), "nt": keydigest(("reuse", history)),
+            "out": ("runner-reuse", history[-1], tuple(r[2] for r in reused)),
+            "keep": (len(history), sum(1 for e in reused[-1][0] if e[0] == "cleanup"),
+                     sum(1 for e in reused[-1][0] if e[0] == "cb"))}
+
+
+# =============================================================================
 # driver
 # =============================================================================
 def run(ctx):
@@ -2499,6 +2691,11 @@ def run(ctx):
     bounds["reentrant_cleanups"] = {"kinds": list(RE_KINDS), "real_run_kinds": list(RE_RUN_KINDS),
                                     "per_layer": re_n, "per_scope_in_real_runs": 3, "orders": "all"}
     ctx.sweep(dup_run_case, list(dup_run_cases()), chunk=1, name="a layer name active twice in a real run")
+    kept_reuse = ctx.sweep(reuse_case, list(reuse_histories(2 if quick else 3)), chunk=1, keep=True,
+                           name="runner reuse: run() called %d times on one ModelRunner" % (2 if quick else 3))
+    ctx.guard(all(k[1] >= 6 and k[2] >= 5 for k in kept_reuse) and kept_reuse,
+              "runner reuse: every last run registers >= 6 cleanups and probes at >= 5 callbacks")
+    bounds["runner_reuse"] = {"runs_on_one_runner": 2 if quick else 3, "programs": list(REUSE_PROGRAMS)}
     # ---- nested execute_steps
     ctx.sweep(nested_exec_case, nested_exec_cases(), chunk=16, name="nested execute_steps: depth 1..3 x data kinds x outcome")
     bounds["nested_execute_steps"] = {"depth": 3, "data_kinds_per_level": list(DATA_KINDS),
